@@ -24,7 +24,10 @@ MANIFEST = {
             "`peers` keys being connected peers and substream ids being unique), occupied_unreachable (the Entry::Occupied "
             "branch of on_connection_established is dead), terminal_once_at_quiescence (full strength: once every "
             "obligation is discharged and the engine drained, no query is live and every started operation has exactly "
-            "one terminal event), put_quorum_sound, quorum_clamp_rule; the ownership predicate is additionally "
+            "one terminal event), put_quorum_sound (a reported success counted the clamped quorum of distinct peers, each "
+            "backed by a send-success result of a PUT_VALUE/ADD_PROVIDER future - never of a lookup-phase request of the "
+            "same query id, by the invariants `at most one record per lookup query and peer` and `no request future in "
+            "flight for a peer the tracker waits for`), quorum_clamp_rule; the ownership predicate is additionally "
             "re-evaluated on every state of every validated trace (guarding the tie, not a hypothesis); "
             "plus a trace-validated correspondence run of the real Kademlia "
             "event loop (paused clock, in-memory substreams, scripted transport events and remote peers) against the model, "
